@@ -33,6 +33,8 @@ mod server;
 #[cfg(test)]
 mod test_utils;
 pub mod utils;
+#[cfg(beetswap_verif)]
+pub mod verif;
 mod wantlist;
 
 use crate::client::{ClientBehaviour, ClientConnectionHandler};
@@ -253,6 +255,20 @@ where
         }
 
         Poll::Pending
+    }
+}
+
+#[cfg(beetswap_verif)]
+impl<const MAX_MULTIHASH_SIZE: usize, B> Behaviour<MAX_MULTIHASH_SIZE, B>
+where
+    B: Blockstore + 'static,
+{
+    pub(crate) fn verif_server(&self) -> &ServerBehaviour<MAX_MULTIHASH_SIZE, B> {
+        &self.server
+    }
+
+    pub(crate) fn verif_protocol(&self) -> String {
+        self.protocol.to_string()
     }
 }
 
